@@ -79,9 +79,9 @@ func secretsBlock(windows []win, unload, worker int) string {
 		if i == unload {
 			val = "env:" + envName(worker, i)
 		}
-		fmt.Fprintf(&b, "  secret %q {\n    value %q\n    valid_from %q\n", ids[i], val, rfc3339(lat(w.From)))
+		fmt.Fprintf(&b, "  secret %q {\n    value %q\n    valid_from %q\n", ids[i], val, stamp(lat(w.From), i))
 		if w.Until >= 0 {
-			fmt.Fprintf(&b, "    valid_until %q\n", rfc3339(lat(w.Until)))
+			fmt.Fprintf(&b, "    valid_until %q\n", stamp(lat(w.Until), i))
 		}
 		b.WriteString("  }\n")
 	}
@@ -332,14 +332,14 @@ func judge(s outSpec, at time.Time, names headerNames, got []seen) (pick int, ti
 			}
 			return pickNone, d, nil
 		}
-		return pickFailed, noTie, &failure{"out:not-sent-though-valid-version-exists:" + s.Sel, "no request reached the target although version(s) " + fmt.Sprint(group) + " are valid and loadable; " + ctx()}
+		return pickFailed, noTie, &failure{"out:not-sent-though-valid-version-exists", "no request reached the target although version(s) " + fmt.Sprint(group) + " are valid and loadable; " + ctx()}
 	}
 	if len(got) > 1 {
 		return pickFailed, noTie, &failure{"out:sent-more-than-once", fmt.Sprintf("%d requests for one delivery; %s", len(got), ctx())}
 	}
 	g := got[0]
 	if len(group) == 0 {
-		return pickFailed, noTie, &failure{"out:sent-without-valid-version:" + s.Sel, "a request was sent although no version is valid at signing time; " + ctx()}
+		return pickFailed, noTie, &failure{"out:sent-without-valid-version", "a request was sent although no version is valid at signing time; " + ctx()}
 	}
 	unix := unixFloor(atNs)
 	if ts := g.Header.Get(names.Ts); ts != strconv.FormatInt(unix, 10) {
